@@ -207,6 +207,21 @@ def c02_term(fam, t, st: Stats):
     for env in M.grid_for(vs):
         r = RS.ref_eval(t, env)
         st.inc("states")
+        if r.status == "range" and RS.root_overflows_on_domain(t, env):
+            # every operand is an ordinary number inside the root's domain; only the magnitude of the result is
+            # extreme.  Whatever evaluation does about that, the point is on the domain: never a DomainError.
+            st.inc("overflowing_root_on_domain")
+            for label, tm, em, share in modes_for(t, env):
+                e = A.build(tm, share)
+                for route, thunk in eval_routes(e, tm, em):
+                    o = A.outcome(thunk)
+                    st.inc("transitions")
+                    st.outcome("range->" + o[0])
+                    if o[0] == "dom":
+                        st.violation(case(t, env, label, route, repr(r), o,
+                                          "DomainError raised at a point of the domain (all operands are ordinary numbers "
+                                          "inside the documented domain; only the result's magnitude is extreme)"))
+            continue
         if r.status in ("amb", "range"):
             st.inc("skipped_" + r.status)
             continue
@@ -262,6 +277,7 @@ def _irrelevant_undefined(t, env) -> bool:
 EXTREME_VALUES = [5e-324, 2.2250738585072014e-308, 5e-309, 6e-309, 1e-308, 1e-154, 1e-300, 2.0 ** -1030, 1e-160, 1e160, 1e300, 8.98846567431158e307,
                   1.7976931348623157e308, 3.0, 0.5]
 DBL_MAX = Fraction(1.7976931348623157e308)
+SINGLE_OPERATIONS = ("Divide(x, y)", "Multiply(x, y)", "Add(x, y)", "Minus(x, y)", "NthPower(x, 2)", "Negation(x)", "Reciprocal(x)")
 DBL_MIN_NORMAL = Fraction(2.2250738585072014e-308)
 
 
@@ -297,6 +313,16 @@ def extreme_executions(st: Stats, pid: str):
                     continue
                 if q != 0 and not (DBL_MIN_NORMAL <= abs(q) <= DBL_MAX):
                     st.inc("extreme_skipped_range")
+                    if pid == "C02" and label in SINGLE_OPERATIONS:
+                        # operands are finite and inside the domain: an over/underflowing result is never a DomainError
+                        env = {"x": a, "y": b}
+                        o = A.outcome(lambda: A.build(term).at(A.make_point(env)))
+                        st.inc("transitions")
+                        st.inc("extreme_range_executions")
+                        if o[0] == "dom":
+                            st.violation(case(term, env, "tree", "at(Point)", "any outcome but DomainError", o,
+                                              f"{label} at x={a!r}, y={b!r}: both operands are finite and inside the domain "
+                                              f"(the exact result merely leaves the double range) but evaluation raised DomainError"))
                     continue
                 inter = None
                 if label == "Divide(Minus(x, y), y)":
@@ -333,8 +359,9 @@ def extreme_transcendental(st: Stats, pid: str):
     for b in (M.DEFAULT_BASE, 2, 3, 0.5, 10, 1.5):
         for v in big:
             cases.append((M.Log(x, b), v))
-    for b, vals in ((M.DEFAULT_BASE, (700, 709.5, -700, -708, 500.5)), (2, (800, 1000, 1023.5, -1000, -1021)),
-                    (0.5, (-1000, 1000, -800.25)), (1.5, (900, 1700, -1700)), (10, (300, 308, -300, -307)), (3, (600, -600))):
+    for b, vals in ((M.DEFAULT_BASE, (700, 709.5, -700, -708, 500.5, 710, 1000, -1000)), (2, (800, 1000, 1023.5, -1000, -1021, 1024, 1100, -1100)),
+                    (0.5, (-1000, 1000, -800.25, -1024, -1100)), (1.5, (900, 1700, -1700, 1800)), (10, (300, 308, -300, -307, 309, 400)),
+                    (3, (600, -600, 700))):
         for v in vals:
             cases.append((M.Exp(x, b), v))
     for n in (2, 3, 4, 5, 10, 101):
@@ -342,7 +369,8 @@ def extreme_transcendental(st: Stats, pid: str):
             cases.append((M.Root(x, n), v))
             if n % 2 == 1:
                 cases.append((M.Root(x, n), -v))
-    for v, w in ((1e300, 1.02), (1e-300, 1.02), (1e150, 2.0), (1e-150, 2.0), (2.0, 1000.0), (0.5, 1000.0), (10.0, -300.0), (1e100, -3.0)):
+    for v, w in ((1e300, 1.02), (1e-300, 1.02), (1e150, 2.0), (1e-150, 2.0), (2.0, 1000.0), (0.5, 1000.0), (10.0, -300.0), (1e100, -3.0),
+                 (1e300, 2.0), (10.0, 400.0), (2.0, 1024.0), (1e-300, 2.0), (1e160, 2.5)):
         cases.append((M.Pow(x, M.C(w)), v))
     for v in (1e22, 1e300, 1.7976931348623157e308, 1e-300):
         cases.append((M.Sin(x), v))
@@ -356,6 +384,14 @@ def extreme_transcendental(st: Stats, pid: str):
             st.inc("extreme_states")
             if true != 0 and not (mpmath.mpf(2.2250738585072014e-308) <= abs(true) <= mpmath.mpf(1.7976931348623157e308)):
                 st.inc("extreme_skipped_range")
+                if pid == "C02":
+                    o = A.outcome(lambda: A.build(term).at(v))
+                    st.inc("transitions")
+                    st.inc("extreme_range_executions")
+                    if o[0] == "dom":
+                        st.violation(case(term, {"x": v}, "tree", "at(number)", "any outcome but DomainError", o,
+                                          f"{M.show(term)} at x={v!r}: the argument is inside the domain (the true value "
+                                          f"{mpmath.nstr(true, 8)} merely leaves the double range) but evaluation raised DomainError"))
                 continue
             o = A.outcome(lambda: A.build(term).at(v))
             st.inc("transitions")
